@@ -644,9 +644,9 @@ def _preprocess(ctx):
     log-wavelength L comes out at L - log10(1+z)"""
     from pydl.pydlspec2d import spec1d, spec2d
     rng = ctx.rng
-    for _ in range(ctx.n(6, 60)):
+    for _ in range(ctx.n(14, 80)):
         npix = rng.randrange(180, 320)
-        nobj = rng.choice([1, 2, 3])
+        nobj = rng.choice([1, 2, 3, 4])
         dx = 1e-4
         x0 = rng.uniform(3.6, 3.9)
         pad = rng.choice([0, 0, 7])
@@ -656,11 +656,17 @@ def _preprocess(ctx):
         width = rng.uniform(2.5, 5.0) * dx
         flux = np.array([10.0 + 30.0 * np.exp(-0.5 * ((loglam - L) / width) ** 2) * (loglam > 0) for L in centers])
         ivar = np.full((nobj, npix), 4.0) * (loglam > 0)
+        # dead fibres (no good pixel at all) in between: the other objects keep their own redshift
+        dead = [k for k in range(nobj) if nobj > 1 and rng.random() < 0.3]
+        if len(dead) == nobj:
+            dead = dead[:-1]
+        for k in dead:
+            ivar[k, :] = 0.0
         lo = min(centers) - math.log10(1 + zs.max()) - 40 * dx
         hi = max(centers) - math.log10(1 + zs.min()) + 40 * dx
         newloglam = np.arange(lo, hi, dx)
         case = {'stream': 'preprocess', 'loglam': loglam.tolist(), 'z': zs.tolist(), 'centers': centers, 'width': width,
-                'newloglam': newloglam.tolist(), 'aesthetics': rng.choice(['mean', 'traditional', 'nothing'])}
+                'newloglam': newloglam.tolist(), 'aesthetics': rng.choice(['mean', 'traditional', 'nothing']), 'dead': dead}
         calls = []
         real_c1f = spec2d.combine1fiber
 
@@ -684,7 +690,10 @@ def _preprocess(ctx):
             impl = [_bits(calls[k][0]), _bits(calls[k][1])] if k < len(calls) else None
             if m != impl:
                 ctx.disagree('preprocess:shift', dict(case, obj=k), impl and [impl[0][:4], impl[1][:4]], [m[0][:4], m[1][:4]])
+        ctx.count('preprocess:dead-fibres=%d' % len(dead))
         for k in range(nobj):
+            if k in dead:
+                continue
             want = centers[k] - math.log10(1 + zs[k])
             w = f[k] - 10.0
             sel = np.abs(newloglam - want) < 6 * width
